@@ -742,7 +742,9 @@ func C12(e *core.Env) {
 	// every way of writing (or not writing) the message of a validation that YAML accepts: the result still names a
 	// non-empty message. (`message: ""` is left out: there the author asked for the empty text, see C13.)
 	spellings := []string{"", "message:", "message: ~", "message: null", "message: 404", "message: 4.5", "message: false", "message: 2001-12-14",
-		"message: [a, b]", "message: {a: b}", "message: 0x1F", "message: .inf", "message: !!str 12", "message: 'quoted'", "message: plain text", "message: |\n      block\n      text"}
+		"message: [a, b]", "message: {a: b}", "message: 0x1F", "message: .inf", "message: !!str 12", "message: 'quoted'", "message: plain text", "message: |\n      block\n      text",
+		// the TEXT of the escapes the report encoder writes (six characters each), and the characters themselves
+		"message: 'line separator (\\u2028) and (\\u2029)'", "message: \"separators \\u2028 \\u2029 and the text \\\\u2028\""}
 	for si, sp := range spellings {
 		var b strings.Builder
 		b.WriteString(ProfileHeader)
